@@ -81,8 +81,12 @@ def run_case(spec):
     ub = np.where(np.isnan(b.ub), np.inf, b.ub)
     fixed = lb == ub
     # (a) once per evaluation, in the convention the signature asks for
-    if len(cbs) != N:
-        out.fail("C20.a.count", "the callback was called %d times for %d evaluations" % (len(cbs), N))
+    n_obj = len(b.log.calls("obj")) if b.fun is not None else None
+    if len(cbs) != N or len(cbs) != int(r.nfev) or (n_obj is not None and len(cbs) != n_obj):
+        # (three independent counts of the evaluations: the tap on the evaluation wrapper, the reported nfev, and
+        # the calls of the user's objective)
+        out.fail("C20.a.count", "the callback was called %d times for %d evaluations (nfev %d, objective calls %s)"
+                 % (len(cbs), N, int(r.nfev), n_obj))
         return out
     for rec in t.evals:
         if len(rec["cb"]) != 1:
